@@ -176,7 +176,7 @@ class Normalizer:
 
 
 def normal_form(body):
-    return Normalizer(body).text()
+    return Normalizer(body.raw_view()).text()
 
 
 def first_diff(a, b):
